@@ -47,7 +47,7 @@ _CHAIN_SEAMS = ["SimRNG (global numpy stream reseeded per step)", "SimGC (gc dis
                 "gauge schedule (canonicalise/ensure/move_qnidx/compress by 'another holder' between arithmetic steps)"]
 for _pid, _ref in (("C03", "4/C03"), ("C04", "4/C04"), ("C05", "4/C05"), ("C06", "4/C06"), ("C07", "4/C07"), ("C13", "4/C13")):
     register(_pid, f"simlab.profiles.{_pid.lower()}", "exploration",
-             budgets={"quick": dict(runs=960 if _pid in ("C05", "C06", "C13") else 640, timeout=120), "thorough": dict(runs=20000, timeout=300)},
+             budgets={"quick": dict(runs=960 if _pid in ("C05", "C06", "C13") else 640, timeout=300), "thorough": dict(runs=20000, timeout=300)},
              rule=_CHAIN_RULE + (" (C05/C06/C13 also run sessions of the tree world, see C11)" if _pid in ("C05", "C06", "C13") else ""), assumptions=COMMON_ASSUMPTIONS, seams=_CHAIN_SEAMS, design_ref=_ref)
 
 register("C15", "simlab.profiles.c15", "exploration",
@@ -79,7 +79,7 @@ register("C18", "simlab.profiles.c18", "exploration",
          design_ref="4/C18")
 
 register("C01", "simlab.profiles.c01", "exploration",
-         budgets={"quick": dict(runs=960, timeout=120, xclass=8), "thorough": dict(runs=30000, timeout=300, xclass=64)},
+         budgets={"quick": dict(runs=960, timeout=300, xclass=8), "thorough": dict(runs=30000, timeout=300, xclass=64)},
          rule=_CHAIN_RULE + "; for C01 the sessions are dominated by Mpo construction (three algorithms, offsets) on generated models/term lists and by "
               "sequences of adjacent-site swaps carried by one operator object, interleaved with copies",
          assumptions=COMMON_ASSUMPTIONS + ["the input dimension (models, term lists) is sampled with the strength of seeded random testing; the simulation adds swap histories, "
